@@ -18,6 +18,10 @@ from fractions import Fraction
 
 LT, EQ, GT, IN = "LT", "EQ", "GT", "IN"
 
+# Alternative models of *listed library defects* (xv/c09.py DEFECTS).  The reference model itself is VARIANTS = empty; xv/c09.py
+# switches single variants on only to decide whether an observed mismatch is exactly what a listed defect predicts.
+VARIANTS = set()
+
 
 class Unspec(Exception):
     """raised by a recogniser when the Recommendation does not settle the case"""
@@ -145,6 +149,8 @@ class StringLike(Atomic):
         return lex
 
     def length(self, v):
+        if "length-facets-count-utf16-units" in VARIANTS:
+            return len(v) + sum(1 for ch in v if ord(ch) > 0xFFFF)
         return len(v)  # python str: code points == XML characters
 
 
@@ -214,6 +220,8 @@ class Decimal(Atomic):
     numeric = True
 
     def parse(self, lex):
+        if "decimal-bare-point-accepted" in VARIANTS and re.match(r"[+-]?\.\Z", lex):
+            return Fraction(0)
         if not _DEC.match(lex):
             raise Invalid("decimal")
         return Fraction(lex)
@@ -320,6 +328,8 @@ class Float(Atomic):
         self.minpos = Fraction(2) ** (emin if p == 24 else -1022)
 
     def parse(self, lex):
+        if "float-bare-point-accepted" in VARIANTS and re.match(r"[+-]?\.\Z", lex):
+            return Fraction(0)
         if not _FLT.match(lex):
             raise Invalid("float lexical")
         if lex == "NaN":
@@ -333,6 +343,12 @@ class Float(Atomic):
         if abs(ex) > 5000:
             raise Unspec("huge exponent")
         d = Fraction(m.group(1)) * Fraction(10) ** ex
+        if self.p == 24 and "float-compared-in-double-precision" in VARIANTS:
+            if abs(d) > self.band_hi:
+                return PINF if d > 0 else NINF
+            if abs(d) < self.minpos:
+                return Fraction(0)
+            return round_binary(d, 53, -1074, 971)
         return round_binary(d, self.p, self.emin, self.emax)
 
     def exact(self, lex):
@@ -375,6 +391,10 @@ class Duration(Atomic):
     ordered = True
 
     def parse(self, lex):
+        if "duration-designator-without-number" in VARIANTS:
+            lex = re.sub(r"(?<![0-9.])([YMDHS])", r"0\1", lex)
+        if "duration-seconds-without-integer-digits" in VARIANTS:
+            lex = re.sub(r"(?<![0-9])\.(?=[0-9])", "0.", lex)
         m = _DUR.match(lex)
         if not m:
             raise Invalid("duration")
@@ -390,6 +410,9 @@ class Duration(Atomic):
 
     def cmp(self, a, b):
         res = set()
+        if "duration-compare-ignores-fraction" in VARIANTS:
+            a = (a[0], Fraction(int(a[1])))
+            b = (b[0], Fraction(int(b[1])))
         for (ry, rm) in _DUR_REFS:
             ta = days_from_civil(ry, rm + a[0], 1) * 86400 + a[1]
             tb = days_from_civil(ry, rm + b[0], 1) * 86400 + b[1]
@@ -477,6 +500,8 @@ class DateTimeLike(Atomic):
         n = self.name
         if n == "gMonth" and re.match(r"--[0-9]{2}--" + _TZ + r"\Z", lex):
             raise Unspec("gMonth --MM-- (original 1.0 form, corrected by erratum to --MM)")
+        if "time-fraction-point-without-digits" in VARIANTS and n in ("dateTime", "time"):
+            lex = re.sub(r"(:[0-9]{2})\.(?=Z\Z|[+-][0-9]{2}:[0-9]{2}\Z)", r"\1", lex)
         m = self.rx.match(lex)
         if not m:
             raise Invalid(n + " lexical")
@@ -492,6 +517,8 @@ class DateTimeLike(Atomic):
             _md(ya, int(g[1]), int(g[2]), neg)
             sod = _hms(int(g[3]), int(g[4]), int(g[5]), g[6])
             inst = days_from_civil(ya, int(g[1]), int(g[2])) * 86400 + sod
+            if "datetime-hour24-not-next-day" in VARIANTS and int(g[3]) == 24 and g[7] in (None, "", "Z"):
+                inst -= Fraction(1, 10 ** 7)      # field-wise comparison: after every time of that day, before the next day
         elif n == "date":
             off = _tz(g[3])
             _md(ya, int(g[1]), int(g[2]), neg)
@@ -533,6 +560,11 @@ class DateTimeLike(Atomic):
                 return LT
             if ia > ib + 14 * 3600:
                 return GT
+            if "tz-14h-boundary-not-indeterminate" in VARIANTS:
+                if ia == ib - 14 * 3600:
+                    return EQ
+                if ia == ib + 14 * 3600:
+                    return GT
             return IN
         r = self.cmp(b, a)
         return {LT: GT, GT: LT}.get(r, r)
@@ -820,6 +852,13 @@ class Type:
         if self.variety == "list":
             return len(a) == len(b) and all(self.item.veq(x, y) for x, y in zip(a, b))
         # union: values of different member types are distinct unless both members share a primitive (not used in the spaces)
+        if "union-compare-across-member-types" in VARIANTS:
+            for m in self.members:
+                sa, va, _ = m.check(a[2])
+                sb, vb, _ = m.check(b[2])
+                if sa == "V" and sb == "V" and m.veq(va, vb):
+                    return True
+            return False
         return a[0] == b[0] and self.members[a[0]].veq(a[1], b[1])
 
     def vcmp(self, a, b):
@@ -866,7 +905,7 @@ class Type:
                 if st == "V":
                     if unspec:
                         raise Unspec(unspec)
-                    return (i, v)
+                    return (i, v, lex)
                 if st == "U":
                     unspec = v
             if unspec:
@@ -907,6 +946,8 @@ class Type:
             else:
                 r = self.vcmp(v, fvv)
                 ok = {"minInclusive": r in (GT, EQ), "minExclusive": r == GT, "maxInclusive": r in (LT, EQ), "maxExclusive": r == LT}[k]
+                if "inclusive-bounds-accept-indeterminate" in VARIANTS and r == IN and k in ("minInclusive", "maxInclusive"):
+                    ok = True
                 if not ok:
                     raise Invalid(k)
         return v
